@@ -11,6 +11,7 @@ import JunoModel.C20.ProofsInterleave
 import JunoModel.C20.ProofsClassAlias
 import JunoModel.C20.ProofsRun
 import JunoModel.C20.ProofsWire
+import JunoModel.C20.ProofsCas
 /-!
 C20 — property theorems (statements only; helper lemmas are in `Proofs*.lean`).
 Every theorem in this module is an obligation listed in evidence/C20.json with its axioms.
@@ -258,6 +259,46 @@ theorem interleaved_readers_see_their_snapshot (ops : List Op) (rs : List RThrea
   · exact Or.inl ⟨by rw [h1, e], m⟩
   · exact Or.inr ⟨w, pre, post, by rw [h1, e], hsplit, hout⟩
 
+/-- **What a concurrent reader ends up with** (round 6). In ANY interleaving, a reader whose loop has run
+to completion — it made at least `Length()` moves after its load, however the writer's operations and
+the other readers' moves are scheduled in between — has yielded EXACTLY the entries of the list-model
+view at its load: their block numbers are `b, b+1, …, b+Length()-1` (newest first), the reverse is what
+`OldestFirst` yields on that view, and the lookups computed from the yielded entries are the model's
+lookups on that view (so `lookup_exact_tx` / `lookup_exact_receipt` apply to what the concurrent reader
+found). Needs only that the writer performed fewer than `2^64` operations before the load. -/
+theorem interleaved_reader_completed_walk (ops : List Op) (rs : List RThread) (acts : List Act)
+    (i b : Nat) (hi : rs[i]? = some (.idle b)) (w : Walk)
+    (hw : (sched (hrun ops) rs acts).2[i]? = some (.walking w)) :
+    ∃ pre post, project i acts = pre.map some ++ none :: post ∧
+      ((ops ++ pre).length < U64 →
+        let v := snapshotFor (run (ops ++ pre)) b
+        v.length ≤ readerMoves post →
+          w.out = v.newestFirst ∧ w.out.length = v.length ∧
+          w.out.reverse = v.oldestFirst ∧
+          w.out.reverse.map (·.number) = List.range' b v.length ∧
+          (∀ h, txByHash { nodes := w.out, length := w.out.length } h = txByHash v h) ∧
+          (∀ h, receiptByHash { nodes := w.out, length := w.out.length } h = receiptByHash v h)) := by
+  rcases interleaved_readers_see_their_snapshot ops rs acts i b hi with ⟨h1, _⟩ | ⟨w', pre, post, h1, hsplit, hout⟩
+  · rw [h1] at hw; cases hw
+  · rw [h1] at hw
+    have hww : w' = w := by injection hw with hw; injection hw
+    subst hww
+    refine ⟨pre, post, hsplit, ?_⟩
+    intro hlen v hmoves
+    have hs := snapshot_spec (run_wf (ops ++ pre) hlen) b
+    have hnl : v.newestFirst.length = v.length := hs.1
+    have hfull : w'.out = v.newestFirst := by
+      rw [hout]; exact take_all_of_le (by rw [hnl]; exact hmoves)
+    have hol : w'.out.length = v.length := by rw [hfull, hnl]
+    have hrev : w'.out.reverse = v.oldestFirst := by rw [hfull, v.oldestFirst_eq]
+    refine ⟨hfull, hol, hrev, by rw [hrev]; exact hs.2, ?_, ?_⟩
+    · intro h
+      simp only [txByHash, Reader.newestFirst, List.take_length]
+      rw [hol, hfull]; rfl
+    · intro h
+      simp only [receiptByHash, Reader.newestFirst, List.take_length]
+      rw [hol, hfull]; rfl
+
 /-- … and the readers write nothing: the storage after the schedule is the storage after the writer's
 operations alone (so `heap_refines_model` gives its list-model content). -/
 theorem interleaved_store_is_writer_history (ops : List Op) (rs : List RThread) (acts : List Act)
@@ -271,6 +312,40 @@ compare-and-swap: the old pointer, a larger heap — takes the same view as a lo
 theorem load_inside_writer_operation_sees_old_view (ops : List Op) (ext : Heap) (b : Nat) :
     hsnapshotFor { heap := (hrun ops).heap ++ ext, inner := (hrun ops).inner } b = hsnapshotFor (hrun ops) b :=
   load_between_allocation_and_publication (hrun_ok ops) ext b
+
+/-! ### 2b'. the publication step: `Load` … `CompareAndSwap` (round 6)
+
+`Cas.lean`: `ApplyUpdate` / `AdvanceTo` as two atomic steps — `current := s.inner.Load()`, then the pure
+computation on the object loaded followed (only if it produced something to publish) by
+`CompareAndSwap(current, new)` on POINTERS — for any number of goroutines and any schedule. This is the
+branch `chain changed between load and store` that `run ops` (one function per operation) leaves out. -/
+
+/-- **Whatever races on the storage, its content is a writer history.** Any number of goroutines calling
+`ApplyUpdate` / `AdvanceTo`, any schedule of their `Load`s and swaps: the content of the storage is
+`run` of exactly the operations whose `CompareAndSwap` succeeded, in the order of the swaps. A failed
+swap (`casFailed`: the error of `ApplyUpdate`, `false` of `AdvanceTo`) and an operation that returned
+before swapping leave no trace; an operation never publishes a chain computed from a stale load. So
+contiguity / alignment / maximality / lookups / overlay (all stated over `run ops`) hold for every view a
+reader can get even if the single-writer discipline were broken — only WHICH operations took effect
+changes. -/
+theorem racing_writers_content_is_history_of_swaps (acts : List CAct) :
+    (csched acts).store.content = run (swappedOps (csched acts).log) :=
+  csched_content_from acts {} rfl
+
+/-- **With ONE writer goroutine the swap never fails** and nothing is lost: in any schedule in which only
+goroutine `w0` acts (the poller: `tick` → `AdvanceTo`, `apply` → `ApplyUpdate`, one after the other), no
+operation ends in `casFailed` and the content is `run` of ALL finished operations in order — the
+assumption every other theorem of this file is stated under (`run ops`, "the single writer's CAS never
+fails"), now a consequence of the transcription. -/
+theorem single_writer_swap_never_fails (w0 : Nat) (acts : List CAct) (hw : ∀ a ∈ acts, a.who = w0) :
+    (∀ e ∈ (csched acts).log, e.2 ≠ .casFailed) ∧
+    (csched acts).store.content = run ((csched acts).log.map (·.1)) := by
+  have h0 : SoleWriter w0 {} := by
+    refine ⟨?_, ?_, rfl⟩
+    · intro p hp; cases hp
+    · intro e he; cases he
+  have h := sole_writer_from w0 acts hw {} h0
+  exact ⟨h.nofail, h.all⟩
 
 /-! ### 2c. the `NewClasses` maps as objects (round 5)
 
@@ -840,6 +915,26 @@ example : (match (sched (hrun (hist.take 3)) [.idle 11, .idle 12]
        .writer (hist.getD 5 default), .writer (hist.getD 6 default), .reader 1, .reader 0, .reader 1, .reader 1, .reader 0]).2 with
     | [.walking w0, .walking w1] => (w0.out.map (fun e => (e.number, e.ident)), w1.out.map (fun e => (e.number, e.ident)))
     | _ => ([], [])) = ([(13, "c"), (12, "b"), (11, "a")], [(13, "d"), (12, "b2")]) := by decide
+-- `interleaved_reader_completed_walk`: in that schedule reader 0 loads first (`pre = []`), its view has 3 blocks
+-- and it makes 3 moves after the load, interleaved with 4 writer operations: the hypotheses are satisfiable
+example : (project 0 [Act.reader 0, .writer (hist.getD 3 default), .reader 0, .writer (hist.getD 4 default), .reader 0,
+      .writer (hist.getD 5 default), .writer (hist.getD 6 default), .reader 1, .reader 0, .reader 1, .reader 1, .reader 0]).head?.map Option.isNone = some true ∧
+    readerMoves ((project 0 [Act.reader 0, .writer (hist.getD 3 default), .reader 0, .writer (hist.getD 4 default), .reader 0,
+      .writer (hist.getD 5 default), .writer (hist.getD 6 default), .reader 1, .reader 0, .reader 1, .reader 1, .reader 0]).drop 1) = 4 ∧
+    (snapshotFor (run (hist.take 3)) 11).length = 3 := by decide
+-- `racing_writers_content_is_history_of_swaps`: goroutines 0 and 1 both load the empty storage and both bootstrap
+-- block 11; the first swap wins, the second fails ("chain changed between load and store") and leaves no trace; then
+-- goroutine 1 extends. An ABA on nil (0 loads nil; 1 bootstraps and drops the chain again; 0 swaps) succeeds, harmlessly.
+example : ((csched [.load 0 (.apply (blk "x") 11 0 11 []), .load 1 (.apply (blk "y") 11 0 11 []), .finish 1, .finish 0,
+      .load 1 (.apply (blk "z") 12 0 11 []), .finish 1]).log.map (·.2)) = [.swapped, .casFailed, .swapped] ∧
+    (match (csched [.load 0 (.apply (blk "x") 11 0 11 []), .load 1 (.apply (blk "y") 11 0 11 []), .finish 1, .finish 0,
+      .load 1 (.apply (blk "z") 12 0 11 []), .finish 1]).store.content with
+     | some r => r.nodes.map (fun e => (e.number, e.ident)) | none => []) = [(12, "z"), (11, "y")] := by decide
+example : ((csched [.load 0 (.apply (blk "x") 11 0 11 []), .load 1 (.apply (blk "y") 11 0 11 []), .finish 1,
+      .load 1 (.advance 20), .finish 1, .finish 0]).log.map (·.2)) = [.swapped, .swapped, .swapped] := by decide
+-- one goroutine: a rejected update and an aligned `AdvanceTo` return without swapping, nothing fails
+example : ((csched [.load 0 (.apply (blk "x") 11 0 11 []), .finish 0, .load 0 (.apply (blk "g") 14 0 11 []), .finish 0,
+      .load 0 (.advance 11), .finish 0]).log.map (·.2)) = [.swapped, .noCas, .noCas] := by decide
 -- the two boundaries
 example : (computeUpdate (run [.apply (blk "m") (U64 - 1) 0 (U64 - 1) []]) (blk "m2") (U64 - 1) 0 (U64 - 1) []
     matches .err .gap) = true := by decide
